@@ -555,7 +555,7 @@ def expected_cancel_error(spec, how):
         return CancelledError, msg
     if how == 'with_exc':
         return FatalError, (msg if msg else repr(ValueError(msg)))
-    if how in ('with_kbi', 'kbi_shutdown'):
+    if how in ('with_kbi', 'kbi_shutdown', 'kbi_exit'):
         return CancelledError, 'KeyboardInterrupt()'
     raise ValueError(how)
 
